@@ -40,6 +40,7 @@ fn gate(p: &Partial, t: Tier) -> Result<(), String> {
     }
     super::need(p, "lines:structured", 100_000)?;
     super::need(p, "lines:byte-level", 100_000)?;
+    super::need(p, "lines:cpr-pairs", 10_000)?;
     super::need(p, "option-sets", 2304)?;
     super::need(p, "history-transitions", 10_000)?;
     super::need(p, "cli-runs", 20)?;
@@ -50,11 +51,8 @@ fn sentinel_line() -> Vec<u8> {
     frames::df17(5, SENT, frames::me_ident(4, 3, frames::callsign_codes("SENTINEL"))).hex().into_bytes()
 }
 
-/// Run `lines` + sentinel; on failure bisect to the offending line(s).
-fn run_batch(ctx: &mut Ctx, cfg: &Cfg, family: &str, prefix: &[Vec<u8>], lines: &[Vec<u8>]) {
-    if lines.is_empty() {
-        return;
-    }
+/// one run of prefix + lines + sentinel: Ok(()) or what went wrong
+fn try_lines(cfg: &Cfg, family: &str, prefix: &[Vec<u8>], lines: &[Vec<u8>]) -> Result<(), String> {
     let mut content = Vec::with_capacity(lines.iter().map(|l| l.len() + 1).sum::<usize>() + 64);
     for l in prefix.iter().chain(lines.iter()) {
         content.extend_from_slice(l);
@@ -63,30 +61,77 @@ fn run_batch(ctx: &mut Ctx, cfg: &Cfg, family: &str, prefix: &[Vec<u8>], lines: 
     content.extend_from_slice(&sentinel_line());
     content.push(b'\n');
     let t = new_table();
-    crate::run::describe_current(&format!("C01 {family} cfg [{}] {} lines, first {:?}", cfg.label(), lines.len(), String::from_utf8_lossy(&lines[0][..lines[0].len().min(60)])));
+    crate::run::describe_current(&format!("C01 {family} cfg [{}] {} lines, first {:?}", cfg.label(), lines.len(), lines.first().map(|l| String::from_utf8_lossy(&l[..l.len().min(60)]).into_owned())));
     let o = run_file(cfg, &content, &t);
-    let sentinel_ok = snapshot(&t).iter().any(|r| r.key == SENT && r.ais.as_deref() == Some("SENTINEL"));
-    if o.is_ok() && sentinel_ok {
+    if !o.is_ok() {
+        return Err(o.label());
+    }
+    if !snapshot(&t).iter().any(|r| r.key == SENT && r.ais.as_deref() == Some("SENTINEL")) {
+        return Err("the well-formed line after it was not processed (sentinel row missing)".to_string());
+    }
+    Ok(())
+}
+
+/// Run `lines` + sentinel; a failing batch is narrowed to the smallest window of consecutive
+/// lines that still fails (one line for most defects, a pair for e.g. CPR pairing).
+fn run_batch(ctx: &mut Ctx, cfg: &Cfg, family: &str, prefix: &[Vec<u8>], lines: &[Vec<u8>]) {
+    if lines.is_empty() {
+        return;
+    }
+    let Err(what) = try_lines(cfg, family, prefix, lines) else {
         ctx.evals(lines.len() as u64);
         ctx.count_n(&format!("profile:{}", crate::profile_name()), lines.len() as u64);
         ctx.outcome(&(family, cfg.label(), crate::profile_name(), crate::snap::hash_state(&lines[0]), lines.len()));
         return;
-    }
-    if lines.len() == 1 {
-        ctx.eval();
-        let shown: String = String::from_utf8_lossy(&lines[0][..lines[0].len().min(80)]).chars().flat_map(|c| c.escape_default()).collect();
-        let what = if !o.is_ok() { o.label() } else { "the well-formed line after it was not processed (sentinel row missing)".to_string() };
-        ctx.violation(
-            &format!("C01/{family}/{}/{}", cfg.label(), crate::profile_name()),
-            &shown,
-            || format!("line {shown:?} ({} bytes) after {} prefix line(s), cfg [{}], {} build: {what}", lines[0].len(), prefix.len(), cfg.label(), crate::profile_name()),
-            || json!({"kind": "line", "line": lines[0], "prefix": prefix, "cfg": cfg.opts, "profile": crate::profile_name()}),
-        );
+    };
+    if lines.len() > 1 {
+        let mid = lines.len() / 2;
+        let left_fails = try_lines(cfg, family, prefix, &lines[..mid]).is_err();
+        let right_fails = try_lines(cfg, family, prefix, &lines[mid..]).is_err();
+        if left_fails || right_fails {
+            run_batch(ctx, cfg, family, prefix, &lines[..mid]);
+            run_batch(ctx, cfg, family, prefix, &lines[mid..]);
+            return;
+        }
+        // the failure needs lines from both halves: shrink the window from both ends
+        let (mut lo, mut hi) = (0usize, lines.len());
+        // smallest end
+        let (mut a, mut b) = (mid, lines.len());
+        while a < b {
+            let m = (a + b) / 2;
+            if try_lines(cfg, family, prefix, &lines[..m]).is_err() { b = m } else { a = m + 1 }
+        }
+        hi = hi.min(a.max(1));
+        // largest start
+        let (mut a, mut b) = (0usize, hi.saturating_sub(1));
+        while a < b {
+            let m = (a + b + 1) / 2;
+            if try_lines(cfg, family, prefix, &lines[m..hi]).is_err() { a = m } else { b = m - 1 }
+        }
+        lo = lo.max(a);
+        let window = &lines[lo..hi];
+        if window.len() < lines.len() {
+            // everything outside the window is fine on its own
+            run_batch(ctx, cfg, family, prefix, &lines[..lo]);
+            run_batch(ctx, cfg, family, prefix, &lines[hi..]);
+        }
+        report_window(ctx, cfg, family, prefix, window, &try_lines(cfg, family, prefix, window).err().unwrap_or(what));
         return;
     }
-    let mid = lines.len() / 2;
-    run_batch(ctx, cfg, family, prefix, &lines[..mid]);
-    run_batch(ctx, cfg, family, prefix, &lines[mid..]);
+    report_window(ctx, cfg, family, prefix, lines, &what);
+}
+
+fn report_window(ctx: &mut Ctx, cfg: &Cfg, family: &str, prefix: &[Vec<u8>], window: &[Vec<u8>], what: &str) {
+    ctx.eval();
+    let show = |l: &Vec<u8>| -> String { String::from_utf8_lossy(&l[..l.len().min(80)]).chars().flat_map(|c| c.escape_default()).collect() };
+    let shown: Vec<String> = window.iter().take(6).map(show).collect();
+    let keep: Vec<&Vec<u8>> = window.iter().take(64).collect();
+    ctx.violation(
+        &format!("C01/{family}/{}/{}", cfg.label(), crate::profile_name()),
+        &shown.join(" | "),
+        || format!("{} consecutive line(s) {shown:?} after {} prefix line(s), cfg [{}], {} build: {what}", window.len(), prefix.len(), cfg.label(), crate::profile_name()),
+        || json!({"kind": "line", "lines": keep, "prefix": prefix, "cfg": cfg.opts, "profile": crate::profile_name()}),
+    );
 }
 
 fn field_values(bits: u32, thorough: bool) -> Vec<u32> {
@@ -215,6 +260,55 @@ fn df_length_lines() -> Vec<Vec<u8>> {
                     v.push(g.hex().into_bytes());
                     v.push(format!("00A1B2C3D4E5{}", g.hex()).into_bytes());
                     v.push(format!("*{};", g.hex().to_lowercase()).into_bytes());
+                }
+            }
+        }
+    }
+    v
+}
+
+/// even/odd pairs of true positions covering every NL zone and the polar caps, airborne (TC11) and
+/// surface (TC6), both parity orders; every pair has its own address. Lines must stay in pairs.
+fn cpr_pair_lines() -> Vec<Vec<u8>> {
+    use crate::refmodel::cpr;
+    let mut v = vec![];
+    let mut n = 0u32;
+    let mut lat = -89.95;
+    while lat < 90.0 {
+        for lon in [-179.99, -90.3, -0.01, 0.01, 45.7, 179.99] {
+            for surface in [false, true] {
+                for first_odd in [false, true] {
+                    n += 1;
+                    let addr = 0x500001 + (n % 0x0F_FFFF);
+                    for k in 0..2 {
+                        let odd = first_odd ^ (k == 1);
+                        // the same 17-bit fields in both squitter kinds: the decoder reconstructs the
+                        // latitude from the fields alone, so every NL zone is reached for surface frames too
+                        let (la, lo) = cpr::encode(lat, lon, odd);
+                        let me = if surface { frames::me_surfpos(6, 20, 1, 60, 0, odd as u32, la, lo) } else { frames::me_airpos(11, 0, 0, frames::ac12_for_alt(36000), 0, odd as u32, la, lo) };
+                        v.push(frames::df17(5, addr, me).hex().into_bytes());
+                    }
+                }
+            }
+        }
+        lat += 0.45;
+    }
+    // raw CPR field grid (every combination of 9 values per field) for surface and airborne, both orders
+    let grid = [1u32, 2, 0x3FFF, 0x8000, 0xFFFF, 0x10000, 0x17FFF, 0x1FFFE, 0x1FFFF];
+    for &la0 in &grid {
+        for &la1 in &grid {
+            for &lo in &[1u32, 0x10000, 0x1FFFF] {
+                for surface in [false, true] {
+                    for first_odd in [false, true] {
+                        n += 1;
+                        let addr = 0x500001 + (n % 0x0F_FFFF);
+                        for k in 0..2 {
+                            let odd = first_odd ^ (k == 1);
+                            let la = if odd { la1 } else { la0 };
+                            let me = if surface { frames::me_surfpos(7, 20, 1, 60, 0, odd as u32, la, lo) } else { frames::me_airpos(12, 0, 0, frames::ac12_for_alt(36000), 0, odd as u32, la, lo) };
+                            v.push(frames::df17(5, addr, me).hex().into_bytes());
+                        }
+                    }
                 }
             }
         }
@@ -497,6 +591,18 @@ fn run(ctx: &mut Ctx) {
             }
         }
     }
+    // (a') CPR pairs over all NL zones (incl. the polar caps), airborne and surface, both orders
+    let pairs = cpr_pair_lines();
+    for cfg in &cfgs {
+        for chunk in pairs.chunks(16_384) {
+            job += 1;
+            if ctx.mine(job) {
+                ctx.count_n("lines:structured", chunk.len() as u64);
+                ctx.count_n("lines:cpr-pairs", chunk.len() as u64);
+                run_batch(ctx, cfg, "cpr-pairs", &[], chunk);
+            }
+        }
+    }
     // (c) histories
     let acts = history_alphabet();
     for cfg in &cfgs {
@@ -588,10 +694,13 @@ fn replay(ctx: &mut Ctx, case: &Value) {
     match case.get("kind").and_then(|x| x.as_str()) {
         Some("line") => {
             let cfg = Cfg::new(&o);
-            let line = bytes(case.get("line").unwrap_or(&Value::Null));
+            let lines: Vec<Vec<u8>> = match case.get("lines").and_then(|p| p.as_array()) {
+                Some(a) => a.iter().map(&bytes).collect(),
+                None => vec![bytes(case.get("line").unwrap_or(&Value::Null))],
+            };
             let prefix: Vec<Vec<u8>> = case.get("prefix").and_then(|p| p.as_array()).map(|a| a.iter().map(&bytes).collect()).unwrap_or_default();
-            crate::run::say(&format!("line {:?} after {} prefix line(s), cfg [{}], {} build", String::from_utf8_lossy(&line[..line.len().min(80)]), prefix.len(), cfg.label(), crate::profile_name()));
-            run_batch(ctx, &cfg, "replay", &prefix, &[line]);
+            crate::run::say(&format!("{} line(s) {:?} after {} prefix line(s), cfg [{}], {} build", lines.len(), lines.iter().take(4).map(|l| String::from_utf8_lossy(&l[..l.len().min(80)]).into_owned()).collect::<Vec<_>>(), prefix.len(), cfg.label(), crate::profile_name()));
+            run_batch(ctx, &cfg, "replay", &prefix, &lines);
         }
         Some("options") => run_option_set(ctx, &opts, &mixed_stream()),
         Some("history") => {
